@@ -325,6 +325,76 @@ def check_c04_histories(tier, seed):
                 if bad:
                     b.fail("C04.histories.mirror", dict(history=desc), bad)
                 b.case(desc, nontrivial=kinds == {"view", "mut"})
+
+    # ---- `.shape = ...` on any member of a chain  owner -> view -> view of view, followed by an in-place update of any member --------
+    def shapes_for(t):
+        if t.size == 0:
+            return []
+        out_ = [(t.size,), (1,) + tuple(t.shape)]
+        if t.ndim == 2:
+            out_.append((t.shape[1], t.shape[0]))
+        return out_
+
+    def run_shape(c1, c2, target, k_shape, m_idx, member, use_mg, layout):
+        root = base_vals.copy() if layout == "C" else np.asfortranarray(base_vals)
+        fam = [mg.tensor(root, copy=False) * 1.0 if use_mg else root * 1.0]
+        for c in (c1, c2):
+            if c is None:
+                continue
+            v = creators[c][1](fam[-1])
+            if v is None:
+                return None
+            fam.append(v)
+        if target >= len(fam) or member >= len(fam):
+            return None
+        opts = shapes_for(fam[target])
+        if k_shape >= len(opts):
+            return None
+        fam[target].shape = opts[k_shape]
+        r = mutators[m_idx][1](fam[member], 1.75)
+        if r is None and mutators[m_idx][0] in ("[0]=c", "[::2]=c", "[bool]=c", "[-1:]*=c") and not (fam[member].ndim and fam[member].shape[0]):
+            return None
+        return fam
+
+    for layout in ("C", "F"):
+        for c1 in range(len(creators)):
+            for c2 in [None] + list(range(len(creators))):
+                for target in (0, 1, 2):
+                    for k_shape in range(3):
+                        for m_idx in range(len(mutators)):
+                            for member in (0, 1, 2):
+                                if tier == "quick" and (zlib.crc32(repr((layout, c1, c2, target, k_shape, m_idx, member)).encode()) % 3):
+                                    continue
+                                try:
+                                    ref = run_shape(c1, c2, target, k_shape, m_idx, member, False, layout)
+                                except Exception:
+                                    continue  # NumPy refuses the in-place reshape (or the statement): outside the domain
+                                if ref is None:
+                                    continue
+                                desc = [f"root:{layout}", f"view:{creators[c1][0]}"] + ([] if c2 is None else [f"view:{creators[c2][0]}"]) + [f"member{target}.shape={shapes_for(ref[target]) and tuple(ref[target].shape)}", f"mut:{member}:{mutators[m_idx][0]}"]
+                                try:
+                                    got = run_shape(c1, c2, target, k_shape, m_idx, member, True, layout)
+                                except Exception as e:
+                                    b.fail("C04.histories.shape_raises", dict(history=desc), f"MyGrad raises {type(e).__name__}: {e} where NumPy accepts")
+                                    b.case(desc)
+                                    continue
+                                b.count("shape assignment then in-place update: family mirror")
+                                bad = None
+                                for n_, (t, r) in enumerate(zip(got, ref)):
+                                    if t.shape != r.shape or not np.array_equal(t.data, r):
+                                        bad = f"member {n_} value {t.data.tolist()} != numpy {r.tolist()}"
+                                        break
+                                    if n_ > 0 and r.size and np.shares_memory(r, ref[0]) and t.base is not got[0]:
+                                        bad = f"member {n_}.base is not the family owner"
+                                        break
+                                if bad is None:
+                                    for p_, q_ in itertools.combinations(range(len(got)), 2):
+                                        if np.shares_memory(got[p_].data, got[q_].data) != np.shares_memory(ref[p_], ref[q_]):
+                                            bad = f"shares_memory({p_},{q_}) differs from NumPy"
+                                            break
+                                if bad:
+                                    b.fail("C04.histories.shape_mirror", dict(history=desc), bad)
+                                b.case(desc)
     return b
 
 
@@ -448,6 +518,57 @@ def check_c06(tier, seed):
                         b.fail("C06.bounded.view_grad_value", desc, "view.grad differs from the chain applied to base.grad")
                     elif vg.size and not np.shares_memory(vg, base.grad):
                         b.fail("C06.bounded.view_grad_not_shared", desc, "view.grad does not share memory with base.grad")
+                    b.case(desc)
+    # views that sit in the back-propagated graph but receive no gradient of their own: every consumer of the view is a detached
+    # (constant=True) op, the base gets its gradient through another path; the view's gradient must still follow the base's
+    for order in ("C", "F"):
+        for L in range(1, maxlen + 1):
+            for chain in itertools.product(range(len(ops)), repeat=L):
+                for n_detached in range(1, L + 1):  # the last n_detached members only feed detached ops
+                    base = mg.tensor(np.asarray(rng.uniform(-1, 1, size=(3, 3)), order=order), copy=False)
+                    fam, ok = [base], True
+                    for j in chain:
+                        try:
+                            v = ops[j][1](fam[-1])
+                        except Exception:
+                            ok = False
+                            break
+                        if v is None or not np.shares_memory(v.data, base.data):
+                            ok = False
+                            break
+                        fam.append(v)
+                    if not ok:
+                        continue
+                    desc = dict(chain=[ops[j][0] for j in chain], order=order, detached_members=n_detached, consumers="constant=True ops")
+                    Lt = (base * 3.0).sum()
+                    for i, m_ in enumerate(fam[1:], start=1):
+                        if i > L - n_detached:
+                            Lt = Lt + mg.sum(mg.exp(m_, constant=True))
+                        else:
+                            Lt = Lt + (m_ * 2.0).sum()
+                    try:
+                        Lt.backward()
+                    except Exception as e:
+                        b.fail("C06.bounded.raises", desc, f"{type(e).__name__}: {e}")
+                        continue
+                    bg = base.grad
+                    b.count("view fed only to detached ops: view.grad is the view of base.grad")
+                    if bg is None:
+                        b.fail("C06.bounded.base_grad_missing", desc, "base.grad is None")
+                        continue
+                    ref = bg
+                    for n_, j in enumerate(chain):
+                        ref = ops[j][1](ref)
+                        vg = fam[n_ + 1].grad
+                        if vg is None:
+                            b.fail("C06.bounded.view_grad_unavailable", dict(desc, member=n_ + 1), "view.grad is None although base.grad is available (the view only feeds detached ops)")
+                            break
+                        if vg.shape != ref.shape or not np.array_equal(vg, ref):
+                            b.fail("C06.bounded.view_grad_value", dict(desc, member=n_ + 1), "view.grad differs from the chain applied to base.grad")
+                            break
+                        if vg.size and not np.shares_memory(vg, bg):
+                            b.fail("C06.bounded.view_grad_not_shared", dict(desc, member=n_ + 1), "view.grad does not share memory with base.grad")
+                            break
                     b.case(desc)
     # the base is the *terminal* tensor: its gradient is the caller's seed, of any layout / dtype / broadcastable shape
     def seeds(shape):
